@@ -37,9 +37,10 @@ type verifC16Out struct {
 	Result  string   `json:"result,omitempty"` // hex of the wrongly applied text (only when !applied)
 	Sorted  bool     `json:"sorted"`
 	Disj    bool     `json:"disjoint"`
-	InDoc   bool     `json:"indoc"`   // every line <= last line index, +1 when the last line is unterminated
-	Strict  bool     `json:"strict"`  // every line is an existing line index (no reliance on the clamp)
+	InDoc   bool     `json:"indoc"`  // every line <= last line index, +1 when the last line is unterminated
+	Strict  bool     `json:"strict"` // every line is an existing line index (no reliance on the clamp)
 	Char0   bool     `json:"char0"`
+	Closed  bool     `json:"closed"` // before is empty or ends with a line terminator
 	ApplErr string   `json:"applerr,omitempty"`
 	NLines  int      `json:"nlines"`
 }
@@ -178,8 +179,11 @@ func verifRunOne(c verifC16In) (o verifC16Out) {
 	last := len(starts) - 1 // index of the last line (possibly the empty line after a final EOL)
 	maxLine := last
 
+	o.Closed = true
+
 	if n := len(before); n > 0 && before[n-1] != '\n' && before[n-1] != '\r' {
 		maxLine = last + 1 // unterminated last line: one past is the clamped end of document
+		o.Closed = false
 	}
 
 	o.NLines = len(splitLines(before))
